@@ -270,9 +270,12 @@ def fam_boundary(rng, variant):
         ks = []
         for s in rng.sample(range(nS), 2):
             a, k = rng.randrange(nA), rng.choice([27, 30, 40, 53, 60])
-            j, n = rng.sample(range(nS), 2)
+            # every entry is a double and the row sums to exactly 1 (1 - 2^-60 is not a double, so the
+            # complement is split: 1 - 2^-8, 2^-8 - 2^-k, 2^-k)
+            j, j2, n = rng.sample(range(nS), 3)
             row = [F(0)] * nS
-            row[j], row[n] = 1 - F(1, 2**k), F(1, 2**k)
+            row[j], row[j2], row[n] = 1 - F(1, 2**8), F(1, 2**8) - F(1, 2**k), F(1, 2**k)
+            assert all(F(float(x)) == x for x in row) and sum(row) == 1
             m["T"][s][a] = [str(x) for x in row]
             m["R"][s][a][n] = str(rng.choice([-3, -2, 2, 3]) * 2**k)
             ks.append(k)
@@ -282,7 +285,7 @@ def fam_boundary(rng, variant):
         # prior 2^-k on the action whose reward advantage is about lam*k*ln 2: it still gets about half the mass
         m = gen_mdp(rng, nA=rng.choice([2, 3, 4]))
         nS, nA = m["nS"], m["nA"]
-        k, lam = rng.choice([27, 30, 40, 60]), rng.choice(["1/2", "1", "2"])
+        k, lam = rng.choice([27, 30, 40, 50]), rng.choice(["1/2", "1", "2"])      # 1 - 2^-k must be a double
         best = rng.randrange(nA)
         adv = int(round(float(F(lam)) * k * 0.6931)) + rng.choice([-1, 0, 1])
         m["R"] = [[[str(rng.randint(-1, 1) + (adv if a == best else 0))] for a in range(nA)] for _ in range(nS)]
@@ -558,28 +561,48 @@ class Eval:
         self.slack3 = F(1, 10**12) * self.scale
         self.atol = F(1001, 1000) * F(1, 10**8)
         self.rtol = F(1001, 1000) * F(1, 10**5)
-        self.temperature = "given"
+        # Temperatures.  The clauses are stated at the GIVEN weight.  Only when the 60-digit evaluation rejects
+        # that, and the weight is a scalar Python/numpy float (which msdm stores as torch.tensor([w]) = float32),
+        # are they restated at what the code then demonstrably uses: evaluation multiplies by w32 = float32(w);
+        # improvement multiplies q by the float32 quotient 1/w32, i.e. uses the temperature 1/float32(1/w32).
+        # Both are within 2^-23 (relative) of the given weight.  lam2 serves E2, lam serves E3.
         self.set_lam(self.lam_given)
-        if case["lam_style"] in ("float", "npfloat") and not self.mp_ok():
+        self.set_lam2(self.lam_given)
+        self.temperature = "given"
+        if case["lam_style"] in ("float", "npfloat"):
             l32 = [f32(x) for x in self.lam_given]
-            if l32 != self.lam_given:
+            linv = [1 / f32(1 / x) for x in l32]
+            if any(k == "e3" for k, *_ in self.mp_failures()) and l32 != self.lam_given:
                 self.set_lam(l32)
-                if self.mp_ok():
-                    self.temperature = "float32"
-                else:
+                if any(k == "e3" for k, *_ in self.mp_failures()):
                     self.set_lam(self.lam_given)
+            if any(k == "e2" for k, *_ in self.mp_failures()):
+                for cand in (l32, linv):
+                    if cand != self.lam_given:
+                        self.set_lam2(cand)
+                        if not any(k == "e2" for k, *_ in self.mp_failures()):
+                            break
+                else:
+                    self.set_lam2(self.lam_given)
+            if self.lam != self.lam_given or self.lam2 != self.lam_given:
+                self.temperature = "float32"
 
     def set_lam(self, lam):
+        """temperature of the evaluation clause E3"""
         self.lam = lam
-        self.c, self.sm, self.lse, self.kl, self.eps3 = [], [], [], [], []
+        self.c, self.lse, self.kl, self.eps3 = [], [], [], []
         for s in range(self.nS):
             c, sm, lse, Z = soft_parts(self.p0[s], self.q[s], lam[s])
             kl = kl_terms(self.pi[s], sm, self.p0[s], self.q[s], lam[s], c, Z)
             self.c.append(c)
-            self.sm.append(sm)
             self.lse.append(lse)
             self.kl.append(kl)
             self.eps3.append(lam[s] * up(kl) * F(1000001, 1000000) + self.slack3)
+
+    def set_lam2(self, lam):
+        """temperature of the improvement clause E2"""
+        self.lam2 = lam
+        self.sm = [soft_parts(self.p0[s], self.q[s], lam[s])[1] for s in range(self.nS)]
 
     def look(self, v, s, a):
         return sum(self.T[s][a][n] * (self.R[s][a][n] + self.g * v[n]) for n in range(self.nS))
@@ -666,26 +689,33 @@ def case_module(idx, ev, sel=None):
          "Definition Rt : list (list (list R)) := %s." % rten(ev.R),
          "Definition gm : R := %s." % rl(ev.g),
          "Definition lt : list R := %s." % rlist(ev.lam),
+         "Definition lt2 : list R := %s." % rlist(ev.lam2),
          "Definition pt : list (list R) := %s." % rmat(ev.p0),
          "Definition qt : list (list R) := %s." % rmat(ev.q),
          "Definition vt : list R := %s." % rlist(ev.v),
          "Definition it : list (list R) := %s." % rmat(ev.pi),
          "Definition ct : list R := %s." % rlist(ev.c),
-         "Ltac ev := cbv [E1_at E2sh_at E3sh_at lookahead softmax_sh lse_sh Zsum_sh sumf nadd n0 NumR t1 t2 t3 nth Tt Rt gm lt pt qt vt it ct].",
+         "Ltac ev := cbv [E1_at E2sh_at E3sh_at lookahead softmax_sh lse_sh Zsum_sh sumf nadd n0 NumR t1 t2 t3 nth Tt Rt gm lt lt2 pt qt vt it ct].",
          "Ltac iv := ev; interval with (i_prec 80)."]
     goals = []
+    split = ev.lam2 != ev.lam          # E2 at another temperature than E3 (float32 quotient, see Eval)
+    w2, l2, z2 = ("lt2", "m", "y") if split else ("lt", "l", "z")
     for s in states:
         L.append("Lemma l%d : t1 lt %d%%nat <> 0. Proof. ev. lra. Qed." % (s, s))
         L.append("Lemma z%d : 0 < Zsum_sh %d%%nat (t1 lt) (t2 pt) (t1 ct) (t2 qt) %d%%nat. Proof. iv. Qed." % (s, nA, s))
         goals.append(("z%d" % s, "side", s, None))
+        if split:
+            L.append("Lemma m%d : t1 lt2 %d%%nat <> 0. Proof. ev. lra. Qed." % (s, s))
+            L.append("Lemma y%d : 0 < Zsum_sh %d%%nat (t1 lt2) (t2 pt) (t1 ct) (t2 qt) %d%%nat. Proof. iv. Qed." % (s, nA, s))
+            goals.append(("y%d" % s, "side", s, None))
     for s, a in pairs:
         L.append("Lemma e1_%d_%d : E1_at %d%%nat (t3 Tt) (t3 Rt) gm %s (t1 vt) (t2 qt) %d%%nat %d%%nat. Proof. iv. Qed."
                  % (s, a, nS, rl(ev.eps1), s, a))
         goals.append(("e1_%d_%d" % (s, a), "e1", s, a))
     for s, a in pairs:
-        L.append("Lemma e2_%d_%d : E2_at %d%%nat (t1 lt) (t2 pt) %s %s (t2 qt) (t2 it) %d%%nat %d%%nat. "
-                 "Proof. apply (E2_at_shift_gen _ _ _ (t1 ct)); [exact l%d|exact z%d|iv]. Qed."
-                 % (s, a, nA, rl(ev.atol), rl(ev.rtol), s, a, s, s))
+        L.append("Lemma e2_%d_%d : E2_at %d%%nat (t1 %s) (t2 pt) %s %s (t2 qt) (t2 it) %d%%nat %d%%nat. "
+                 "Proof. apply (E2_at_shift_gen _ _ _ (t1 ct)); [exact %s%d|exact %s%d|iv]. Qed."
+                 % (s, a, nA, w2, rl(ev.atol), rl(ev.rtol), s, a, l2, s, z2, s))
         goals.append(("e2_%d_%d" % (s, a), "e2", s, a))
     for s in states:
         L.append("Lemma e3_%d : E3_at %d%%nat (t1 lt) (t2 pt) %s (t1 vt) (t2 qt) %d%%nat. "
@@ -775,7 +805,7 @@ def run(ctx):
     impl = ctx.impl("c19_impl.py", {"cases": cases}, shards=min(4, ctx.jobs) if tier == "quick" else min(16, ctx.jobs))["results"]
 
     evals, mods = {}, []
-    stats = {"converged": 0, "not_converged": 0, "temperature_given": 0, "temperature_float32": 0,
+    stats = {"converged": 0, "not_converged": 0, "temperature_given": 0, "temperature_float32": 0, "temperature_split_E2_E3": 0,
              "via_planner": 0, "force_nonzero": 0, "per_state_weight": 0, "prior_default": 0, "prior_per_state": 0,
              "reward_broadcast": 0, "clamped_policy_entries": 0, "zero_policy_entries": 0, "iterations_max": 0,
              "states_dropped_by_reachability": 0, "repeat_calls": 0, "repeat_calls_differ": 0, "max_abs_exponent": 0.0,
@@ -829,6 +859,7 @@ def run(ctx):
         ev = Eval(case, res)
         evals[i] = ev
         stats["temperature_" + ev.temperature] += 1
+        stats["temperature_split_E2_E3"] += ev.lam2 != ev.lam
         if case.get("avail"):
             st_, ac_ = res["states"], res["actions"]
             stats["unavailable_entries"] += sum(1 for s_ in st_ for a_ in ac_ if not case["avail"][s_][a_])
@@ -856,7 +887,7 @@ def run(ctx):
                         break
         stats["clamped_policy_entries"] += sum(1 for row in ev.pi for x in row if 0 < x < F(1, 10**300))
         stats["zero_policy_entries"] += sum(1 for row in ev.pi for x in row if x == 0)
-        stats["max_abs_exponent"] = max(stats["max_abs_exponent"], max(float((ev.c[s] - x) / ev.lam[s]) for s in range(ev.nS) for x in ev.q[s]))
+        stats["max_abs_exponent"] = max(stats["max_abs_exponent"], max(float((ev.c[s] - x) / min(ev.lam[s], ev.lam2[s])) for s in range(ev.nS) for x in ev.q[s]))
         stats["max_abs_value"] = max(stats["max_abs_value"], float(max(abs(x) for x in ev.v)))
         for s_ in range(ev.nS):
             qs = sorted(ev.q[s_])
@@ -913,7 +944,7 @@ def run(ctx):
         if Qs is None:
             continue
         pmin = min(min(r) for r in ev.p0)
-        lmax = max(ev.lam)
+        lmax = max(ev.lam + ev.lam2)
         kappa = lmax * up(mpmath.log(1 / mpf(pmin))) if pmin < 1 else F(0)
         e3 = max(ev.eps3)
         bound = ev.eps1 + ev.g * (ev.eps1 + e3 + kappa) / (1 - ev.g)
